@@ -19,6 +19,7 @@ type Ctx struct {
 	assumes   []string // ordered path-gated assumptions and definitions
 	nfresh    int
 	strLits   map[string]string // literal → const name
+	containsNeedles map[string]bool // literals used as the needle of contains(_, lit)
 	strOrder  []string
 	structOf  map[string]*types.Struct // sort → struct type
 	structNm  map[string]string        // sort → display name
@@ -35,7 +36,7 @@ type Ctx struct {
 }
 
 func newCtx() *Ctx {
-	return &Ctx{sortSeen: map[string]bool{}, declSeen: map[string]bool{}, strLits: map[string]string{},
+	return &Ctx{sortSeen: map[string]bool{}, declSeen: map[string]bool{}, strLits: map[string]string{}, containsNeedles: map[string]bool{},
 		structOf: map[string]*types.Struct{}, structNm: map[string]string{}, compSort: map[string]string{},
 		ifaceTags: map[string]int{}, ifaceBox: map[string]string{}, notes: map[string]int{}, assumed: map[string]bool{}}
 }
@@ -107,6 +108,7 @@ var nativeBlocks = map[string]string{
 	"ssub":    "(define-fun ssub ((s String) (a Int) (b Int)) String (str.substr s a (- b a)))\n",
 	"sconcat": "(define-fun sconcat ((a String) (b String)) String (str.++ a b))\n",
 	"str_lt":  "(define-fun str_lt ((a String) (b String)) Bool (str.< a b))\n",
+	"scontains": "(define-fun scontains ((a String) (b String)) Bool (str.contains a b))\n",
 }
 
 // Axiom blocks are included only when their trigger symbol occurs in the query, so that
@@ -131,6 +133,9 @@ var preambleBlocks = []struct{ sym, text string }{
 (assert (forall ((s Str) (i Int)) (! (=> (and (<= 0 i) (< i (slen s))) (= (select (bytes_of s) i) (sat s i))) :pattern ((select (bytes_of s) i)))))
 `},
 	{"str_lt", "(declare-fun str_lt (Str Str) Bool)\n"},
+	// scontains(a, b): b occurs in a as a substring. Declared here; the facts used are (i) the truth value for every
+	// pair of literals whose needle is used (strLitDecls), (ii) containment survives concatenation (scontainsConcat).
+	{"scontains", "(declare-fun scontains (Str Str) Bool)\n(assert (forall ((a Str)) (! (scontains a a) :pattern ((scontains a a)))))\n"},
 	{"bit_and", `(declare-fun bit_and (Int Int) Int)
 (assert (forall ((a Int) (b Int)) (! (=> (and (>= a 0) (>= b 0)) (and (>= (bit_and a b) 0) (<= (bit_and a b) a) (<= (bit_and a b) b))) :pattern ((bit_and a b)))))
 `},
@@ -139,6 +144,9 @@ var preambleBlocks = []struct{ sym, text string }{
 `},
 	{"bit_xor", "(declare-fun bit_xor (Int Int) Int)\n"},
 }
+
+const scontainsConcat = `(assert (forall ((a Str) (b Str) (x Str)) (! (=> (or (scontains a x) (scontains b x)) (scontains (sconcat a b) x)) :pattern ((scontains (sconcat a b) x)))))
+`
 
 const strExtAxiom = `(assert (forall ((a Str) (b Str)) (! (=> (and (= (slen a) (slen b)) (forall ((i Int)) (=> (and (<= 0 i) (< i (slen a))) (= (sat a i) (sat b i))))) (= a b)) :pattern ((slen a) (slen b)))))
 `
@@ -436,6 +444,15 @@ func (c *Ctx) strLitDecls() string {
 			}
 			b.WriteString("))\n")
 		}
+	}
+	for _, needle := range c.strOrder {
+		if !c.containsNeedles[needle] {
+			continue
+		}
+		for _, hay := range c.strOrder {
+			fmt.Fprintf(&b, "(assert (= (scontains %s %s) %v))\n", c.strLits[hay], c.strLits[needle], strings.Contains(hay, needle))
+		}
+		fmt.Fprintf(&b, "(assert (not (scontains str_empty %s)))\n", c.strLits[needle])
 	}
 	if len(c.strOrder) > 1 {
 		// literals longer than the cap could coincide on the modelled prefix; they are distinct texts
